@@ -135,6 +135,7 @@ func (r *report) finish() int {
 	newLock := map[string][]string{}
 	for _, p := range props {
 		pstart := time.Now()
+		os.RemoveAll(filepath.Join(eng.verif, "replays", p))
 		var obls []*Obligation
 		var funcsUnder []map[string]any
 		var specErrs, imprecise []string
@@ -281,22 +282,22 @@ func (r *report) finish() int {
 			tb = append(tb, "extern contract "+e)
 		}
 		cov := map[string]any{
-			"obligations":           nClaimed,
-			"discharged":            nDischarged,
-			"checker_cmd":           fmt.Sprintf("cd /verif && ./check %s %s", p, r.tier),
-			"trusted_base":          tb,
-			"samples":               samples,
+			"obligations":              nClaimed,
+			"discharged":               nDischarged,
+			"checker_cmd":              fmt.Sprintf("cd /verif && ./check %s %s", p, r.tier),
+			"trusted_base":             tb,
+			"samples":                  samples,
 			"functions_under_contract": funcsUnder,
-			"discharged_by_solver":  bySolver,
-			"solver_time_s":         round3(solverTime),
-			"unclaimed_obligations": nUnclaimed,
-			"unclaimed_discharged":  nUnclaimedOK,
-			"known_findings":        known,
-			"abstractions":          imprecise,
-			"per_obligation":        evObs,
-			"load_s":                round3(eng.loadSecs),
-			"vcgen_s":               round3(r.genSecs),
-			"explanation":           "Each obligation is a verification condition generated from go/ssa of /repo's working tree for a function under contract (//@ clauses in zz_verif_contracts.go, build tag verif) and discharged by an SMT portfolio; 'discharged' counts claimed obligations proved unsat (unbounded). Unclaimed obligations are implicit safety conditions in functions not marked nopanic: attempted, reported, never counted.",
+			"discharged_by_solver":     bySolver,
+			"solver_time_s":            round3(solverTime),
+			"unclaimed_obligations":    nUnclaimed,
+			"unclaimed_discharged":     nUnclaimedOK,
+			"known_findings":           known,
+			"abstractions":             imprecise,
+			"per_obligation":           evObs,
+			"load_s":                   round3(eng.loadSecs),
+			"vcgen_s":                  round3(r.genSecs),
+			"explanation":              "Each obligation is a verification condition generated from go/ssa of /repo's working tree for a function under contract (//@ clauses in zz_verif_contracts.go, build tag verif) and discharged by an SMT portfolio; 'discharged' counts claimed obligations proved unsat (unbounded). Unclaimed obligations are implicit safety conditions in functions not marked nopanic: attempted, reported, never counted.",
 		}
 		ev := map[string]any{
 			"property_id": p,
